@@ -219,7 +219,10 @@ def check_term_product(ctx):
     coeff_names = [name for name, ds in d.defs.items() if any(isinstance(x, ast.AST) and norm(x) == "self.coefficient" for x in ds)]
     mult = [n for n in body_walk(f.node) if isinstance(n, ast.AugAssign) and isinstance(n.op, ast.Mult) and isinstance(n.target, ast.Name) and n.target.id in coeff_names and any(x is lookups[0] for x in ast.walk(n.value))] if len(lookups) == 1 else []
     mult += [n for n in body_walk(f.node) if len(lookups) == 1 and isinstance(n, ast.Assign) and isinstance(n.targets[0], ast.Name) and n.targets[0].id in coeff_names and isinstance(n.value, ast.BinOp) and isinstance(n.value.op, ast.Mult) and any(x is lookups[0] for x in ast.walk(n.value)) and n.targets[0].id in {x.id for x in ast.walk(n.value) if isinstance(x, ast.Name)}]
-    ctx.check(bool(mult), R2, f.key + ":phase-applied", "running coefficient (initialised from self.coefficient) is multiplied by the phase", "the looked-up phase is not multiplied into the coefficient carried over from self", f)
+    if len(lookups) != 1:
+        ctx.undecided(R2, f.key + ":phase-applied", "no single COEFF_MAP lookup whose result could be followed into the coefficient", f)
+    else:
+      ctx.check(bool(mult), R2, f.key + ":phase-applied", "running coefficient (initialised from self.coefficient) is multiplied by the phase", "the looked-up phase is not multiplied into the coefficient carried over from self", f)
     # the phase statement and the operator statement sit in the same branch; the equal-operator branch deletes the key, no phase
     cfg = cfg_of(f.node)
     dels = [n for n in body_walk(f.node) if isinstance(n, ast.Delete) and any(norm(t) in {f"{a}[{idx}]" for a in ops_alias} for t in n.targets)]
@@ -230,7 +233,10 @@ def check_term_product(ctx):
         body_nodes = [x for s in eq_tests[0].body for x in ast.walk(s)]
         coeff_written = any(isinstance(x, (ast.Assign, ast.AugAssign)) and any(isinstance(t, ast.Name) and t.id in coeff_names for t in (x.targets if isinstance(x, ast.Assign) else [x.target])) for x in body_nodes)
         ok = any(x in body_nodes for x in dels + pops) and not any(x in body_nodes for x in lookups + phase_gets) and not coeff_written
-    ctx.check(ok, R2, f.key + ":equal-cancel", "equal operators cancel to the identity without a phase", "the branch for equal operators on one qubit does not simply remove that qubit (sigma^2 = 1, phase 1)", f)
+    if not eq_tests:
+        ctx.undecided(R2, f.key + ":equal-cancel", "cannot find the `if <current operator> == <incoming operator>` branch", f)
+    else:
+      ctx.check(ok, R2, f.key + ":equal-cancel", "equal operators cancel to the identity without a phase", "the branch for equal operators on one qubit does not simply remove that qubit (sigma^2 = 1, phase 1)", f)
     # result built from the edited copy and the running coefficient; self._ops itself is copied first
     rets = returned_exprs(f.node)
     ok = len(rets) == 1 and isinstance(rets[0], ast.Call) and dotted(rets[0].func) == "PauliTerm" and len(rets[0].args) + len(rets[0].keywords) == 2 and norm(arg_or_kw(rets[0], 0, "operator")) in ops_alias and norm(arg_or_kw(rets[0], 1, "coefficient")) in coeff_names
